@@ -12,7 +12,7 @@ def AUTH(var, kmax, sym=0, tiers=QT):
 instances = [
     # (i) decode == true under a non-empty key  =>  decode verified a MESSAGE-INTEGRITY attribute
     ANY('h_auth_any', 'auth_any20', 20, 1, QT, 1), ANY('h_auth_any', 'auth_any24', 24, 1, QT, 2),
-    ANY('h_auth_any', 'auth_any28', 28, 1, T, 3, timeout_s=2400, mem_gb=14, object_bits=12),
+    ANY('h_auth_any', 'auth_any28', 28, 1, T, 2, timeout_s=2400, mem_gb=14, object_bits=12),
     AUTH('fp', 1), AUTH('fp', 1, sym=1), AUTH('mi', 2), AUTH('mi_fp', 1), AUTH('prio_mi', 1), AUTH('mi_prio', 1), AUTH('mi', 2, sym=1, tiers=T), AUTH('xaddr_mi', 1, tiers=T), AUTH('unk_mi', 1, tiers=T),
     # a keyed + fingerprinted message of the shape ICE sends (writeStun) is accepted by decode under the same password (also keeps encode in the program)
     c14.RT('rt_keyed_fp', 'ints', 2, 1, 1),
